@@ -30,14 +30,15 @@ class Task:
         self.covers = list(covers)           # cover points that must be reached on a feasible path
         self.assumptions = list(assumptions)
         self.kind = kind
+        self.bounded = bounded               # None, or a text stating the bound (labelled stand-in, never counted as proved)
 
 
 REGISTRY = {}
 
 
-def task(name, prop, functions=(), expect=(), twin=None, covers=(), assumptions=()):
+def task(name, prop, functions=(), expect=(), twin=None, covers=(), assumptions=(), bounded=None):
     def deco(fn):
-        t = Task(name, prop, fn, functions, expect, twin, covers, assumptions)
+        t = Task(name, prop, fn, functions, expect, twin, covers, assumptions, bounded=bounded)
         REGISTRY.setdefault(prop, []).append(t)
         return fn
     return deco
@@ -97,7 +98,7 @@ def explore_task(modname, taskname):
         error = "internal: " + "".join(traceback.format_exception(type(e), e, e.__traceback__))[-3000:]
     return {"task": taskname, "prop": prop, "paths": npaths, "results": results, "covers": sorted(covers),
             "error": error, "wall": time.time() - t0, "stats": dict(STATS), "functions": fps,
-            "assumptions": sorted(assumptions), "twin": tk.twin, "expect": tk.expect, "need_covers": tk.covers,
+            "assumptions": sorted(assumptions), "bounded": tk.bounded, "twin": tk.twin, "expect": tk.expect, "need_covers": tk.covers,
             "files": dict(P.used_files)}
 
 
@@ -108,7 +109,7 @@ def aggregate(summaries):
         for r in s["results"]:
             name = r["name"]
             o = obl.setdefault(name, {"status": "discharged", "queries": 0, "time": 0.0, "solvers": set(), "witness": None,
-                                      "task": s["task"], "twin": False, "kf": None})
+                                      "task": s["task"], "twin": False, "kf": None, "bounded": s.get("bounded")})
             o["queries"] += 1
             o["time"] += r["time"]
             o["solvers"].add(r["solver"] if r["status"] != "trivial" else "syntactic")
@@ -282,8 +283,16 @@ def report(prop, tier, seed, mod, summaries, t0, verbose=False, partial=False):
             vio_out.append((n, rel, " no-failing-input-found"))
         else:
             vio_out.append((n, rel, " no-failing-input-found"))
-    n_obl = len(real)
-    n_dis = sum(1 for o in real.values() if o["status"] == "discharged")
+    proved = {n: o for n, o in real.items() if not o["bounded"]}
+    bounded = {n: o for n, o in real.items() if o["bounded"]}
+    n_obl = len(proved)
+    n_dis = sum(1 for o in proved.values() if o["status"] == "discharged")
+    bounded_block = None
+    if bounded:
+        bounded_block = {"label": "bounded stand-ins: NOT counted in obligations/discharged",
+                         "bounds": sorted({o["bounded"] for o in bounded.values()}),
+                         "obligations": len(bounded), "held": sum(1 for o in bounded.values() if o["status"] == "discharged"),
+                         "names": sorted(bounded)}
     if vio_out:
         exit_code = 1
     elif engine_problems:
@@ -340,7 +349,7 @@ def report(prop, tier, seed, mod, summaries, t0, verbose=False, partial=False):
             "engine_problems": engine_problems,
             "exit_code": exit_code,
             "not_decided": getattr(mod, "NOT_DECIDED", ""),
-            "bounded": getattr(mod, "BOUNDED_RESULT", None),
+            "bounded": bounded_block,
         },
         "assumptions": trusted,
         "wall_s": round(time.time() - t0, 2),
